@@ -163,11 +163,17 @@ type Alpha struct {
 	NoCatch  bool
 	NoDef    bool
 	WithPost bool // C12: post-transform configurations are part of the alphabet
+	SourceTag string // front ends: the struct tag that names input keys ("" for plain Go maps)
+	FE       bool // front-end alphabets (C10, C14): {plain, required, two tests} × {valid, missing, nil, empty, failing, uncoercible}
+	Full     bool // C13: fully populated values only (no zero leaf, no empty slice, no nil pointer)
 	Lite     bool // reduced configuration/input alphabets (used where another dimension is added)
 }
 
 // primitive configuration: index 0 is the plain node (optional, no default, no catch, tests {t2}).
 func (a *Alpha) primCfgN(k Kind) int {
+	if a.FE {
+		return 3
+	}
 	if a.Lite {
 		return 5
 	}
@@ -180,6 +186,16 @@ func (a *Alpha) primCfgN(k Kind) int {
 
 func (a *Alpha) primCfg(n *Node, idx int) {
 	t1, t2 := kindTests(n.Kind)
+	if a.FE {
+		n.Tests = []TestSpec{t2}
+		switch idx {
+		case 1:
+			n.Req = true
+		case 2:
+			n.Tests = []TestSpec{t1, t2}
+		}
+		return
+	}
 	if a.Lite {
 		n.Tests = []TestSpec{t2}
 		switch idx {
@@ -222,6 +238,13 @@ type inClass struct {
 // Parse inputs of a primitive; index 0 is the valid native value.
 func (a *Alpha) primParseInputs(k Kind) []inClass {
 	valid := primValue(k, VValid)
+	if a.FE {
+		out := []inClass{{"valid", valid, false}, {"missing", nil, true}, {"nil", nil, false}, {"empty", "", false}, {"fail1", primValue(k, VFail1), false}}
+		if k != KStr {
+			out = append(out, inClass{"uncoercible", "abc", false})
+		}
+		return out
+	}
 	if a.Lite {
 		out := []inClass{{"valid", valid, false}, {"missing", nil, true}, {"fail1", primValue(k, VFail1), false}}
 		if k != KStr {
@@ -259,6 +282,16 @@ var tZero = reflect.Zero(primType(KTime)).Interface()
 
 // Validate inputs of a primitive (values already in the destination).
 func (a *Alpha) primValidateInputs(k Kind) []inClass {
+	if a.FE {
+		return []inClass{{"valid", primValue(k, VValid), false}, {"zero", reflect.Zero(primType(k)).Interface(), false}, {"fail1", primValue(k, VFail1), false}}
+	}
+	if a.Full {
+		out := []inClass{{"valid", primValue(k, VValid), false}}
+		if k != KBool {
+			out = append(out, inClass{"fail1", primValue(k, VFail1), false}, inClass{"fail2", primValue(k, VFail2), false}, inClass{"failB", primValue(k, VFailB), false})
+		}
+		return out
+	}
 	if a.Lite {
 		return []inClass{{"valid", primValue(k, VValid), false}, {"zero", reflect.Zero(primType(k)).Interface(), false}, {"fail1", primValue(k, VFail1), false}}
 	}
@@ -272,6 +305,9 @@ func (a *Alpha) primValidateInputs(k Kind) []inClass {
 // slice defaults are enumerated only for slices of primitives (a default holding
 // struct values is looked up by lower-case schema keys and is not a documented use)
 func (a *Alpha) sliceCfgN(elem Kind) int {
+	if a.FE {
+		return 3
+	}
 	if !elem.Prim() {
 		return 2 * 3
 	}
@@ -280,6 +316,16 @@ func (a *Alpha) sliceCfgN(elem Kind) int {
 
 func (a *Alpha) sliceCfg(n *Node, idx int, elem Kind) {
 	t1, t2 := kindTests(KSlice)
+	if a.FE {
+		n.Tests = []TestSpec{t2}
+		switch idx {
+		case 1:
+			n.Req = true
+		case 2:
+			n.Tests = []TestSpec{t1, t2}
+		}
+		return
+	}
 	ti := idx % 3
 	idx /= 3
 	n.Req = idx%2 == 1
@@ -495,7 +541,7 @@ func (b *caseBuilder) parseInput(n *Node, pp string, path string) (any, bool) {
 		for _, f := range n.Fields {
 			v, miss := b.parseInput(f.N, pp, joinPath(path, f.Key))
 			if !miss {
-				m[f.Key] = v
+				m[fieldKeyFor(f, b.a.SourceTag)] = v
 			}
 		}
 		return m, false
@@ -534,7 +580,15 @@ func (b *caseBuilder) validateInput(n *Node, pp string, v reflect.Value, path st
 	switch n.Kind {
 	case KSlice:
 		cnt := b.elems
-		switch b.pick(unit, "in", slValidateN) {
+		shape := 0
+		if b.a.Full {
+			if b.pick(unit, "in", 2) == 1 {
+				shape = 3
+			}
+		} else {
+			shape = b.pick(unit, "in", slValidateN)
+		}
+		switch shape {
 		case 1:
 			v.Set(reflect.Zero(v.Type()))
 			b.absent(n, path)
@@ -552,7 +606,7 @@ func (b *caseBuilder) validateInput(n *Node, pp string, v reflect.Value, path st
 		}
 		v.Set(s)
 	case KPtr:
-		if b.pick(unit, "in", 2) == 1 {
+		if !b.a.Full && b.pick(unit, "in", 2) == 1 {
 			v.Set(reflect.Zero(v.Type()))
 			b.absent(n, path)
 			return
